@@ -9,6 +9,7 @@ from ..runner import Scn, verdict, sha, Vacuous
 from . import c06
 
 ID = 'C07'
+DECORATE = True
 LEVEL = 'model_checking'
 RULE = ('E1 enumeration of LAT=2 decks: regular hexagons (2 pitches x 3 rotations) and irregular ones '
         '(stretched, sheared; opposite sides parallel and equal), prism axis z / x / oblique, six or eight '
